@@ -81,6 +81,19 @@ CHECKS['C06'] = ('proof', 'Structural theorems on the byte-exact builder model: 
                  'partial: "compiles as C++17" is validated by g++ against a mock Dezyne runtime and a mock model header derived from the model-resolved plan, '
                  'not proved. Known findings K1, K2, K8, K9 reproduced on every run.', '§5 C06')
 
+CHECKS['C01'] = ('proof', 'Semantics of the emitted C++ fragment (late-bound std::function slots, std::ref, dzn::shell, dzn::pump) in Gallina; the builder '
+                 'model renders exactly these statements, so the byte-exact correspondence ties them to /repo. Theorems: the constructor program contains '
+                 'the forwarding statement for every event of every MTS exposed port (none left out, same port and event on the other side); calling the '
+                 'user-side slot yields exactly one native record at the same-named slot with arguments in order, reply and by-reference finals returned '
+                 '(Properties/C01.v). Leg B: every generated shell compiled with a mock runtime under ASan and driven through every (port, event) in all four directions.',
+                 'partial: that g++ gives the rendered statements the meaning Sem/Exec.v assigns is validated by running them, not proved. Name-hygiene side '
+                 'conditions are explicit hypotheses (known finding K6 when violated). Multi-client ports are covered by C04. Repaired defect F5.', '§5 C01')
+CHECKS['C02'] = ('proof', 'Same semantics: MTS provides in-events run in dispatcher context with the caller blocked; MTS requires out-events return at once with '
+                 'one closure queued holding the values at post time and run later in dispatcher context; an uncopied argument is flagged Dangling; STS ports are '
+                 'direct calls in the caller context; accessor type Sts/Mts iff semantics (Properties/C02.v). Leg B as C01 (dispatcher flag, queue length, ASan '
+                 'stack-use-after-return for closures run after the caller frame died).',
+                 'partial: as C01.', '§5 C02')
+
 NOT_YET = {
 }
 
